@@ -398,6 +398,16 @@ func (pp *Prepass) instrWrites(fn *ssa.Function, ins ssa.Instruction, ws KeySet)
 			if len(fc.LockFx) > 0 && fn != nil {
 				pp.LockTouch[fn] = true
 			}
+			// acquiring a lock exposes the state it guards to interference:
+			// the guarded fields of every declared monitor count as written
+			for _, le := range fc.LockFx {
+				if le.Delta > 0 && !le.Read {
+					for _, md := range pp.prog.Contracts.Monitors {
+						pp.monitorKeys(md, ws)
+					}
+					break
+				}
+			}
 		}
 		sc := pp.staticCallee(cc)
 		if sc == nil || sc.Blocks == nil {
@@ -577,6 +587,39 @@ func calleeName(cc *ssa.CallCommon) string {
 		return "builtin." + v.Name()
 	}
 	return ""
+}
+
+// monitorKeys adds the heap keys of the fields guarded by monitor md.
+func (pp *Prepass) monitorKeys(md *MonitorDecl, ws KeySet) {
+	if md.Pkg == nil || md.Pkg.Types == nil {
+		return
+	}
+	obj := md.Pkg.Types.Scope().Lookup(md.TypeName)
+	if obj == nil {
+		return
+	}
+	su, ok := obj.Type().Underlying().(*types.Struct)
+	if !ok {
+		return
+	}
+	for i := 0; i < su.NumFields(); i++ {
+		for _, g := range md.Guards {
+			if su.Field(i).Name() != g {
+				continue
+			}
+			ft := su.Field(i).Type()
+			if _, isT := pp.tm.isTargetStruct(ft); isT {
+				pp.structKeys(ft, ws)
+				continue
+			}
+			key := pp.tm.FieldKey(obj.Type(), i)
+			if pp.AddrTaken[key] {
+				ws[pp.tm.MemKey(ft)] = true
+			} else {
+				ws[key] = true
+			}
+		}
+	}
 }
 
 // KeysWithPrefix lists all heap keys (fields of the loaded packages, memory
